@@ -243,9 +243,19 @@ func Terminate(v *vrt.Ctx) {
 	st.SetInput(in)
 	idx := st.SizeIdx
 	engineLevel := v.Choice("through-engine", 2) == 1
+	firstRan := 0
+	moves := st.Moves
 	if engineLevel {
 		st.SetCode(code)
 		en := engine.NewEngine(engine.Config{Root: "root", FlagCount: fc}, rs).WithState(st).WithMemory(ca)
+		if v.Choice("with-first-function", 2) == 1 {
+			// a first-function is configured: it must not run either, and
+			// the engine's own bookkeeping around it must leave the state alone
+			en = en.WithFirst(func(ctx context.Context, sym string, input []byte) (resource.Result, error) {
+				firstRan++
+				return resource.Result{}, nil
+			})
+		}
 		cont, err := en.Exec(context.Background(), in)
 		if len(in) > 0 {
 			if _, verr := vm.ValidInput(in); verr != nil {
@@ -267,8 +277,8 @@ func Terminate(v *vrt.Ctx) {
 		v.Assert(err == nil && len(rest) == 0, "C06/terminated-run-returns-at-once")
 		v.Cover("C06/terminated-vm")
 	}
-	v.Assert(rs.FuncCalls() == 0, "C06/terminated-no-external-call")
-	v.Assert(len(st.ExecPath) == depth && st.SizeIdx == idx, "C06/terminated-no-position-change")
+	v.Assert(rs.FuncCalls() == 0 && firstRan == 0, "C06/terminated-no-external-call")
+	v.Assert(len(st.ExecPath) == depth && st.SizeIdx == idx && st.Moves == moves, "C06/terminated-no-position-change")
 	v.Assert(int(ca.Levels()) == depth+1, "C06/terminated-cache-unchanged")
 	v.Assert(bit(st.Flags, state.FLAG_TERMINATE), "C06/terminated-stays-set")
 	for i := range before {
